@@ -85,6 +85,9 @@ type Case struct {
 	Ctor   string `json:"ctor,omitempty"`
 	TickNs int64  `json:"tick_ns,omitempty"`
 	UnitNs int64  `json:"unit_ns,omitempty"`
+	// Back != nil (legs4.go): Ops is unused; the clock steps BACK between polls as the spec says (RunBack).
+	// Sched "realclock-wheel" / "realclock-heap" (legs4.go): a started scheduler of TickNs / UnitNs on the real clock (RealClock).
+	Back *BackSpec `json:"back,omitempty"`
 }
 
 func (c Case) Header() string {
